@@ -827,8 +827,15 @@ pub fn run_case(case: &Case) {
                     IntoConcurrentIter::into_con_iter(arr)
                 });
             }),
+            Src::Iter(script, hint) => {
+                let mut once = Some(crate::elem::ZProbe(ProbeCore::new(script.clone(), *hint)));
+                run_generic(case, true, &mut || {
+                    let p = once.take().expect("iter kinds have one slot");
+                    IterIntoConcurrentIter::into_con_iter(p)
+                });
+            }
             _ => {
-                eprintln!("orx-harness: case {}: zst applies to slice, vec, array only", case.id);
+                eprintln!("orx-harness: case {}: zst applies to slice, vec, array, iter only", case.id);
                 std::process::exit(2);
             }
         }
